@@ -106,7 +106,26 @@ fn force_remove(root: &Path) {
     let _ = std::fs::remove_dir_all(root);
 }
 
+/// --perm k: permission layout applied to every tree after it is built (files, dirs); 0 = leave the defaults
+static PERM: std::sync::atomic::AtomicUsize = std::sync::atomic::AtomicUsize::new(0);
+const PERM_LAYOUTS: [(u32, u32); 4] = [(0, 0), (0o444, 0o555), (0o755, 0o700), (0o100, 0o300)];
+
 fn build_std(root: &Path, t: &Tree) {
+    build_std0(root, t);
+    let (fm, dm) = PERM_LAYOUTS[PERM.load(std::sync::atomic::Ordering::SeqCst)];
+    if dm != 0 {
+        for (p, n) in t.iter().rev() {
+            let fp = root.join(&p[1..]);
+            match n {
+                Node::Dir => std::fs::set_permissions(&fp, std::fs::Permissions::from_mode(dm)).unwrap(),
+                Node::File(_) => std::fs::set_permissions(&fp, std::fs::Permissions::from_mode(fm)).unwrap(),
+                Node::Link(_) => {},
+            }
+        }
+    }
+}
+
+fn build_std0(root: &Path, t: &Tree) {
     force_remove(root);
     std::fs::create_dir_all(root).unwrap();
     std::fs::set_permissions(root, std::fs::Permissions::from_mode(0o755)).unwrap();
@@ -145,6 +164,16 @@ fn build_mem(t: &Tree) -> Memfs {
                 m.write_all(p, d).unwrap();
             },
             Node::Link(_) => {},
+        }
+    }
+    let (fm, dm) = PERM_LAYOUTS[PERM.load(std::sync::atomic::Ordering::SeqCst)];
+    if dm != 0 {
+        for (p, n) in t.iter().rev() {
+            match n {
+                Node::Dir => m.chmod_b(p).unwrap().no_recurse().all(dm).exec().unwrap(),
+                Node::File(_) => m.chmod_b(p).unwrap().no_recurse().all(fm).exec().unwrap(),
+                Node::Link(_) => {},
+            }
         }
     }
     // links last so that their recorded kind is the kind of the (existing) target
@@ -457,6 +486,28 @@ fn main() {
             for tg in ["./a", "../a", "a/../b", "./a/b/", "b/..", "..", "/a/./b", "/b/../a"] {
                 calls.push(call("symlink", l, tg));
             }
+        }
+    }
+    // --perm k (C11 on both backends): the trees get permission layout k and the alphabet is the permission one - the observers
+    // mode / is_exec / is_readonly / entry on every path (links included) and chmod in its builder variants
+    let perm = arg_u64("perm", 0) as usize;
+    if perm > 0 {
+        PERM.store(perm.min(PERM_LAYOUTS.len() - 1), std::sync::atomic::Ordering::SeqCst);
+        calls.clear();
+        for p in paths {
+            for q in ["mode", "is_exec", "is_readonly", "entry", "owner"] {
+                calls.push(call(q, p, ""));
+            }
+            calls.push(call_m("chmod", p, 0o640, 0));
+            calls.push(call_b("chmod_b", p, "", 0, 0, "f:u+x,d:go-rx", "sR"));
+            calls.push(call_b("chmod_b", p, "", 0, 0, "a:a-w", "s"));
+            calls.push(call_b("chmod_b", p, "", 0, 0, "f:a=r,d:u+w", "sF"));
+            calls.push(call_b("chmod_b", p, "", 0, 0, "a:u-r", "sR"));
+            calls.push(call_b("chmod_b", p, "", 0, 0, "f:a-rwx", "s"));
+            calls.push(call_b("chmod_b", p, "", 0o750, 0, "", "d"));
+            calls.push(call_b("chmod_b", p, "", 0, 0o604, "", "f"));
+            calls.push(call_b("chmod_b", p, "", 0o711, 0, "", "aF"));
+            calls.push(call_b("chmod_b", p, "", 0o711, 0, "", "aR"));
         }
     }
     let std = Stdfs::new();
